@@ -131,12 +131,17 @@ def linearize(expr: sympy.Expr, symbol: sympy.Symbol) -> sympy.Expr:
         lambda e: isinstance(e, sympy.Abs) and e.args[0].is_real is not True,
         lambda e: sympy.sqrt(e.args[0] ** 2),
     )
-    diff = expr.diff(symbol)
-    diff = diff.replace(
-        lambda e: isinstance(e, sympy.Derivative) and e.has(sympy.floor),
-        lambda e: sympy.S.Zero,
-    )
-    return diff.doit()
+    diff = expr.replace(sympy.floor, _PiecewiseConstantFloor).diff(symbol)
+    return diff.replace(_PiecewiseConstantFloor, sympy.floor).doit()
+
+
+class _PiecewiseConstantFloor(sympy.Function):
+    """Stands in for floor while an expression is differentiated (also for nested floors)"""
+
+    is_real = True
+
+    def fdiff(self, argindex=1):
+        return sympy.S.Zero
 
 
 def fraction_numerator_is_nonzero(expr):
